@@ -1,4 +1,271 @@
+/-
+C20 — property theorems: correlation, normalisation and information measures obey their
+definitions.  Every statement is about the model text of `Nitime/Model/C20.lean`, instantiated at
+ℂ (covariance family, pair fill), ℝ (Pearson, z-score, percent change, entropies); the driver
+runs the `Float` / `CF` instances of the same definitions.  Index convention of the all-lags
+results: entry `m` is lag `k = m - (N-1)`, `N` = lane length.
+
+Mirrors: `crosscovCore`/`crosscov1` ↔ utils.crosscov (one lane), `autocov1` ↔ utils.autocov /
+autocorr, `correlateFull`, `xcorrFill` ↔ CorrelationAnalyzer.xcorr, `seedCorrcoef1` ↔
+algorithms.seed_corrcoef, `zscore1` ↔ utils.zscore, `percentChange1` ↔ utils.percent_change,
+`entropy1/2`, `mutualInformation`, `conditionalEntropy` ↔ algorithms.entropy.*.
+-/
 import Nitime.Model.C20
+import Nitime.Lemmas.C20Corr
+import Nitime.Lemmas.C20Real
+import Nitime.Lemmas.C20Entropy
+import Nitime.Lemmas.C20Lanes
+
 namespace Nitime.C20.Props
-theorem mi_eq_sum_stub : True := trivial
+open Finset Nitime.Ev Nitime.C20
+open scoped ComplexConjugate
+attribute [-instance] instBEqProd
+
+/-! ### covariance family -/
+
+/-- every entry of the all-lags cross-covariance is the lagged sum of the definition
+`C_xy[k] = Σ_n x'[n+k]·conj y'[n]` (`x'`, `y'` = inputs, mean removed when `debias`), divided by
+`N` when `normalize` -/
+theorem crosscov_is_lagged_sum (x y : List ℂ) (h : x.length = y.length) (db nm : Bool) {m : ℕ}
+    (hm : m < 2 * x.length - 1) :
+    nth (crosscovCore x y true db nm) m
+      = nrm nm x.length (∑ n ∈ range x.length,
+          if x.length - 1 ≤ n + m ∧ n + m - (x.length - 1) < x.length
+          then nth (pre db x) (n + m - (x.length - 1)) * conj (nth (pre db y) n) else 0) := by
+  rw [nth_crosscov_all x y h db nm hm, D_lagged]
+
+/-- `c_yx[k] = conj c_xy[−k]` for every lag and every flag combination -/
+theorem lag_reversal (x y : List ℂ) (h : x.length = y.length) (db nm : Bool) {m : ℕ}
+    (hm : m < 2 * x.length - 1) :
+    nth (crosscovCore y x true db nm) (2 * x.length - 2 - m)
+      = conj (nth (crosscovCore x y true db nm) m) := by
+  rw [nth_crosscov_all x y h db nm hm, nth_crosscov_all y x h.symm db nm (by omega), conj_nrm,
+    ← h, D_reverse _ _ _ hm]
+
+/-- zero lag sits at index `N-1` of the all-lags result and at index 0 of the clipped result, and
+equals the (normalised) inner product; clipped entry `k` is lag `k ≥ 0` -/
+theorem zero_lag_position (x y : List ℂ) (h : x.length = y.length) (hN : 0 < x.length) (db nm : Bool) :
+    nth (crosscovCore x y true db nm) (x.length - 1)
+        = nrm nm x.length (∑ n ∈ range x.length, nth (pre db x) n * conj (nth (pre db y) n)) ∧
+    nth (crosscovCore x y false db nm) 0 = nth (crosscovCore x y true db nm) (x.length - 1) ∧
+    (∀ k, k < x.length →
+      nth (crosscovCore x y false db nm) k = nth (crosscovCore x y true db nm) (x.length - 1 + k)) ∧
+    (crosscovCore x y true db nm).length = 2 * x.length - 1 ∧
+    (crosscovCore x y false db nm).length = x.length := by
+  refine ⟨?_, ?_, fun k hk => nth_crosscov_clip x y db nm hk, length_crosscov_all x y h db nm,
+    length_crosscov_clip x y h db nm⟩
+  · rw [nth_crosscov_all x y h db nm (by omega), D_zero_lag]
+  · simpa using nth_crosscov_clip x y db nm hN
+
+/-- the length check of `crosscov` -/
+theorem crosscov_accepts_iff (x y : List ℂ) (al db nm : Bool) :
+    (x.length = y.length → crosscov1 x y al db nm = .ok (crosscovCore x y al db nm)) ∧
+    (x.length ≠ y.length → crosscov1 x y al db nm = .error ()) := by
+  constructor <;> intro h <;> simp [crosscov1, h]
+
+/-- auto-covariance / auto-correlation sequences are Hermitian: `c[−k] = conj c[k]` -/
+theorem autocorr_hermitian (x : List ℂ) (db nm : Bool) {m : ℕ} (hm : m < 2 * x.length - 1) :
+    nth (autocov1 x true db nm) (2 * x.length - 2 - m) = conj (nth (autocov1 x true db nm) m) := by
+  have hl : (if db = true then removeBias x else x).length = x.length := by cases db <;> simp
+  have := lag_reversal (if db = true then removeBias x else x) (if db = true then removeBias x else x)
+    rfl false nm (m := m) (by rw [hl]; exact hm)
+  rw [hl] at this
+  exact this
+
+/-- the zero-lag auto-covariance is `Σ|x'_n|²` (over `N` when normalised) -/
+theorem autocov_zero_lag (x : List ℂ) (hN : 0 < x.length) (db nm : Bool) :
+    nth (autocov1 x true db nm) (x.length - 1)
+      = nrm nm x.length (∑ n ∈ range x.length, ((Complex.normSq (nth (pre db x) n) : ℝ) : ℂ)) := by
+  have hl : (pre db x).length = x.length := length_pre db x
+  have := (zero_lag_position (pre db x) (pre db x) rfl (by rw [hl]; exact hN) false nm).1
+  rw [hl] at this
+  unfold autocov1
+  rw [show (if db = true then removeBias x else x) = pre db x from rfl, this]
+  congr 1
+  refine sum_congr rfl fun n _ => ?_
+  simp [pre, Complex.mul_conj]
+
+/-! ### the analyzer's pair fill -/
+
+/-- intended fill: EVERY entry (i,j) is `np.correlate(d_i, d_j, 'full')`; in particular entry
+(j,i) is the conjugated lag-reversed entry (i,j) -/
+theorem xcorr_intended_is_direct (data : List (List ℂ)) (i j : ℕ) (hi : i < data.length)
+    (hj : j < data.length) (hlen : (data.getD i []).length = (data.getD j []).length) :
+    ((xcorrFill .intended data).getD i []).getD j []
+      = correlateFull (data.getD i []) (data.getD j []) := by
+  simp only [xcorrFill, List.getD_eq_getElem?_getD, List.getElem?_map, List.getElem?_range hi,
+    List.getElem?_range hj, Option.map_some, Option.getD_some]
+  split_ifs with h
+  · rfl
+  · exact correlate_reverse _ _ (by simpa [List.getD_eq_getElem?_getD] using hlen.symm)
+
+theorem xcorr_intended_pair_reversal (data : List (List ℂ)) (i j : ℕ) (hi : i < data.length)
+    (hj : j < data.length) (hlen : (data.getD i []).length = (data.getD j []).length) :
+    ((xcorrFill .intended data).getD j []).getD i []
+      = (((xcorrFill .intended data).getD i []).getD j []).reverse.map conj := by
+  rw [xcorr_intended_is_direct data i j hi hj hlen, xcorr_intended_is_direct data j i hj hi hlen.symm]
+  exact (correlate_reverse _ _ hlen).symm
+
+/-- today's fill (a copy) is not lag-reversed: channels [1,2] and [3,5] -/
+theorem xcorr_current_counterexample :
+    ((xcorrFill .current [[1, 2], [3, 5]] : List (List (List Rat))).getD 1 []).getD 0 [] = [5, 13, 6] ∧
+    (correlateFull [3, 5] [1, 2] : List Rat) = [6, 13, 5] := by
+  decide +kernel
+
+/-- what does hold for today's fill: the computed half (i ≤ j) is the direct sequence -/
+theorem xcorr_current_partial (data : List (List ℂ)) (i j : ℕ) (hij : i ≤ j) (hj : j < data.length) :
+    ((xcorrFill .current data).getD i []).getD j []
+      = correlateFull (data.getD i []) (data.getD j []) := by
+  have hi : i < data.length := by omega
+  simp only [xcorrFill, List.getD_eq_getElem?_getD, List.getElem?_map, List.getElem?_range hi,
+    List.getElem?_range hj, Option.map_some, Option.getD_some, if_pos hij]
+
+/-! ### Pearson coefficient, z-score, percent change (ℝ) -/
+
+theorem pearson_abs_le_one (seed target : List ℝ) (h : seed.length = target.length) :
+    |seedCorrcoef1 seed target| ≤ 1 := abs_seedCorrcoef_le_one seed target h
+
+/-- z-scoring gives mean 0 and (population) variance 1 whenever σ ≠ 0 -/
+theorem zscore_mean_zero_var_one (x : List ℝ) (hσ : variance x ≠ 0) :
+    mean (zscore1 x) = 0 ∧ variance (zscore1 x) = 1 ∧ (zscore1 x).length = x.length :=
+  ⟨mean_zscore x, variance_zscore x hσ, by simp [zscore1]⟩
+
+theorem percent_change_mean_zero (x : List ℝ) (hμ : mean x ≠ 0) :
+    mean (percentChange1 x) = 0 ∧ (percentChange1 x).length = x.length :=
+  ⟨mean_percentChange x hμ, by simp [percentChange1]⟩
+
+/-! ### information measures (ℝ instance; exact joint counts) -/
+section info
+variable {σ : Type} [DecidableEq σ]
+
+/-- entropies of any arity are non-negative -/
+theorem entropy_nonneg (x y z : List σ) :
+    0 ≤ (entropy1 x : ℝ) ∧ 0 ≤ (entropy2 x y : ℝ) ∧ 0 ≤ (entropy3 x y z : ℝ) :=
+  ⟨entropyG_nonneg _ _, entropyG_nonneg _ _, entropyG_nonneg _ _⟩
+
+/-- `H(X) ≤ log2 |alphabet|`, `H(X,Y) ≤ log2 (|A_x|·|A_y|)` -/
+theorem entropy_le_log_card (x y : List σ) (hx : x ≠ []) (hl : x.length = y.length) :
+    (entropy1 x : ℝ) ≤ Real.logb 2 (uniq x).length ∧
+    (entropy2 x y : ℝ) ≤ Real.logb 2 ((uniq x).length * (uniq y).length : ℕ) := by
+  constructor
+  · exact entropyG_le_logb_card _ _ (nodup_uniq x) (fun s hs => mem_uniq.mpr hs) hx
+  · have hz : x.zip y ≠ [] := by
+      intro h
+      have h1 : (x.zip y).length = 0 := by rw [h]; rfl
+      rw [List.length_zip, ← hl, Nat.min_self] at h1
+      exact hx (List.length_eq_zero_iff.mp h1)
+    have := entropyG_le_logb_card (pairs (uniq x) (uniq y)) (x.zip y)
+      (nodup_pairs (nodup_uniq x) (nodup_uniq y))
+      (fun p hp => by
+        obtain ⟨a, b⟩ := p
+        exact mem_pairs.mpr ⟨mem_uniq.mpr (List.of_mem_zip hp).1, mem_uniq.mpr (List.of_mem_zip hp).2⟩) hz
+    have hlen : (pairs (uniq x) (uniq y)).length = (uniq x).length * (uniq y).length := by
+      simp [pairs, List.length_flatMap]
+    rw [hlen] at this
+    exact this
+
+/-- `MI = H(X) + H(Y) − H(X,Y)` (definition) and its Kullback–Leibler form -/
+theorem mi_eq_sum (x y : List σ) (hl : x.length = y.length) :
+    (mutualInformation x y : ℝ) = entropy1 x + entropy1 y - entropy2 x y ∧
+    (mutualInformation x y : ℝ) * Real.log 2
+      = ∑ a ∈ (uniq x).toFinset, ∑ b ∈ (uniq y).toFinset,
+          P2 x y a b * Real.log (P2 x y a b / (pr (x.count a) x.length * pr (y.count b) y.length)) :=
+  ⟨rfl, mi_kl x y hl⟩
+
+theorem mi_nonneg (x y : List σ) (hl : x.length = y.length) : 0 ≤ (mutualInformation x y : ℝ) :=
+  mi_nonneg_real x y hl
+
+theorem mi_symm (x y : List σ) (hl : x.length = y.length) :
+    (mutualInformation x y : ℝ) = mutualInformation y x := by
+  have h := entropy2_symm x y hl
+  simp only [mutualInformation, entropy2, r_add, r_sub, h]
+  ring
+
+/-- conditioning never increases entropy: `H(X|Y) ≤ H(X)` -/
+theorem cond_le (x y : List σ) (hl : x.length = y.length) :
+    (conditionalEntropy x y : ℝ) ≤ entropy1 x := by
+  have h := mi_nonneg_real y x hl.symm
+  simp only [conditionalEntropy, entropy2, entropy1, r_sub] at h ⊢
+  linarith
+
+/-- injective relabelling of the symbols (per variable) changes nothing — at EVERY scalar
+instance, because the exact histograms coincide -/
+theorem relabel_invariant {K : Type} [RScalar K] {τ : Type} [DecidableEq τ] (f g : σ → τ)
+    (hf : Function.Injective f) (hg : Function.Injective g) (x y : List σ) :
+    (entropy1 (x.map f) : K) = entropy1 x ∧ (entropy2 (x.map f) (y.map g) : K) = entropy2 x y := by
+  constructor
+  · simp only [entropy1, uniq_map_of_injective hf, entropyG_map hf]
+  · simp only [entropy2, uniq_map_of_injective hf, uniq_map_of_injective hg, pairs_map, List.zip_map]
+    exact entropyG_map (Function.Injective.prodMap hf hg) _ _
+
+/-- a joint permutation of the samples changes nothing -/
+theorem permute_invariant (x x' y y' : List σ) (hx : x.Perm x') (hy : y.Perm y')
+    (hz : (x.zip y).Perm (x'.zip y')) :
+    (entropy1 x' : ℝ) = entropy1 x ∧ (entropy2 x' y' : ℝ) = entropy2 x y :=
+  ⟨entropyG_perm (uniq_perm hx) hx,
+   entropyG_perm (pairs_perm (nodup_uniq x) (nodup_uniq y) (uniq_perm hx) (uniq_perm hy)) hz⟩
+
+end info
+
+/-! ### along any axis (n-d arrays in C order, `axis` as numpy normalises it) -/
+
+/-- `crosscov(x, y, axis=…)` on equal-shape arrays: every lane of the result along the axis is the
+1-d cross-covariance of the corresponding lanes of `x` and `y` (so all theorems above apply lane by lane) -/
+theorem crosscov_along_axis (x y : ND ℂ) (axis : ℤ) (ax : ℕ)
+    (hax : normAxis x.shape.length axis = some ax) (hs : x.shape = y.shape) (al db nm : Bool)
+    {o i : ℕ} (ho : o < outerOf x.shape ax) (hi : i < innerOf x.shape ax) :
+    ∃ r, crosscovND x y axis al db nm = .ok r ∧
+      lane r ax o i = crosscovCore (lane x ax o i) (lane y ax o i) al db nm := by
+  have hlt := normAxis_lt hax
+  unfold crosscovND
+  simp only [← hs, hax, ne_eq, not_true_eq_false, if_false]
+  refine ⟨_, rfl, ?_⟩
+  rw [lanesOf_eq x, lanesOf_eq y, ← hs, List.zipWith_map_left, List.zipWith_map_right, List.zipWith_self]
+  have hpos : 0 < innerOf x.shape ax := by omega
+  have h1 : (o * innerOf x.shape ax + i) / innerOf x.shape ax = o := by
+    rw [Nat.add_comm, Nat.add_mul_div_right _ _ hpos, Nat.div_eq_of_lt hi, Nat.zero_add]
+  have h2 : (o * innerOf x.shape ax + i) % innerOf x.shape ax = i := by
+    rw [Nat.add_comm, Nat.add_mul_mod_self_right, Nat.mod_eq_of_lt hi]
+  have hll : ∀ k, (lane x ax (k / innerOf x.shape ax) (k % innerOf x.shape ax)).length
+      = (lane y ax (k / innerOf x.shape ax) (k % innerOf x.shape ax)).length := by
+    intro k; simp [hs]
+  rw [lane_fromLanes_tab x.shape ax _ (if al then 2 * x.shape.getD ax 0 - 1 else x.shape.getD ax 0)
+    (fun k => by
+      cases al
+      · simpa using length_crosscov_clip _ _ (hll k) db nm
+      · simpa using length_crosscov_all _ _ (hll k) db nm) hlt ho hi]
+  simp only [h1, h2]
+
+/-- `zscore(x, axis)` / `percent_change(x, axis)`: along the chosen axis every lane of the result has
+mean 0 (and variance 1 for the z-score) -/
+theorem zscore_along_axis (x : ND ℝ) (axis : ℤ) (ax : ℕ) (hax : normAxis x.shape.length axis = some ax)
+    {o i : ℕ} (ho : o < outerOf x.shape ax) (hi : i < innerOf x.shape ax)
+    (hσ : variance (lane x ax o i) ≠ 0) :
+    ∃ r, mapLanesND zscore1 x axis = .ok r ∧ mean (lane r ax o i) = 0 ∧ variance (lane r ax o i) = 1 := by
+  unfold mapLanesND
+  simp only [hax]
+  refine ⟨_, rfl, ?_⟩
+  rw [lane_mapLanes zscore1 id (fun l => by simp [zscore1]) x ax (normAxis_lt hax) ho hi]
+  exact ⟨mean_zscore _, variance_zscore _ hσ⟩
+
+theorem percent_change_along_axis (x : ND ℝ) (axis : ℤ) (ax : ℕ)
+    (hax : normAxis x.shape.length axis = some ax)
+    {o i : ℕ} (ho : o < outerOf x.shape ax) (hi : i < innerOf x.shape ax)
+    (hμ : mean (lane x ax o i) ≠ 0) :
+    ∃ r, mapLanesND percentChange1 x axis = .ok r ∧ mean (lane r ax o i) = 0 := by
+  unfold mapLanesND
+  simp only [hax]
+  refine ⟨_, rfl, ?_⟩
+  rw [lane_mapLanes percentChange1 id (fun l => by simp [percentChange1]) x ax (normAxis_lt hax) ho hi]
+  exact mean_percentChange _ hμ
+
+/-! ### non-vacuity -/
+example : (crosscovCore [1, 2, 4] [3, 5, 4] true false false : List Rat) = [4, 13, 29, 26, 12] := by
+  decide +kernel
+example : (crosscovCore [3, 5, 4] [1, 2, 4] true false false : List Rat) = [12, 26, 29, 13, 4] := by
+  decide +kernel
+example : normAxis 3 (-2) = some 1 ∧ outerOf [2, 5, 3] 1 = 2 ∧ innerOf [2, 5, 3] 1 = 3 := by decide
+example : jointCounts (pairs (uniq [0, 1, 1, 0]) (uniq [5, 5, 7, 7])) ([0, 1, 1, 0].zip [5, 5, 7, 7])
+    = [1, 1, 1, 1] := by decide
+
 end Nitime.C20.Props
